@@ -119,9 +119,8 @@ def real_all(c):
         en = lambda z: hmc.total_energy_of_qp(z, s.potential_energy, lambda m: s.kinetic_energy(s.inverse_mass_matrix, m))
 
         def steps(e, z):
-            for _ in range(n):
-                z = s.stepper(e, s.inverse_mass_matrix, z)
-            return z
+            # a rolled loop keeps the XLA program (and its compile time) independent of the number of steps
+            return jax.lax.fori_loop(0, n, lambda i, zz: s.stepper(e, s.inverse_mass_matrix, zz), z)
 
         def everything(v, key):
             fwd = lambda v: unqp(steps(eps, qp(v)))
@@ -429,7 +428,16 @@ def _oracle_merge_unit(c):
 
 
 # ---- NUTS integer bookkeeping -------------------------------------------------------------------------------
+_BITS = {}
+
+
 def _real_bits(n):
+    if n not in _BITS:
+        _BITS[n] = _real_bits_uncached(n)
+    return _BITS[n]
+
+
+def _real_bits_uncached(n):
     jax_setup()
     import jax.numpy as jnp
     from jax import lax
@@ -512,16 +520,19 @@ def _oracle_chain(case):
 # ------------------------------------------------------------------------------------------------------------
 def run(ctx):
     rng = ctx.rng
-    cases = [gen_leap(rng, ctx.quick) for _ in range(ctx.n(5, 250))]
+    cases = [gen_leap(rng, ctx.quick) for _ in range(ctx.n(2, 250))]
     for k in ("quad", "quartic", "nonpoly"):
         cases.append(gen_leap(rng, ctx.quick, kind=k, big=False))
     for k in ("quad", "quad", "nonpoly"):
         cases.append(gen_leap(rng, ctx.quick, kind=k, big=True))     # sizeable energy errors: rejections do happen
-    lines = [dict(op="leapfrog", q=c["q"], p=c["p"], eps=c["eps"], n=c["n"], A=c["A"], b=c["b"], c=c["c"],
-                  minv=c["minv"]) for c in cases if c["kind"] != "nonpoly"]
-    outs = iter(ctx.model(DRIVER, lines))
-    acc_lines, acc_cases = [], []
-    for c in cases:
+    # ---- the real code first (oracles), collecting every model request; ONE driver call for the whole check ----------
+    batch = []
+
+    def ask(line):
+        batch.append(line)
+        return len(batch) - 1
+    leap_idx, acc_idx = {}, []
+    for ci, c in enumerate(cases):
         ctx.stat(f"kind={c['kind']}")
         ctx.stat(f"d={c['d']}")
         ctx.stat(f"steps={c['n']}")
@@ -530,58 +541,19 @@ def run(ctx):
         res = oracle(c)
         if res is not None:
             ctx.counterexample(c, *res)
-        r, a = _leap(c)
+        r, _ = _leap(c)
         if c["kind"] == "nonpoly":
             continue
-        m = next(outs)
-        if is_err(r) or is_err(m):
-            if not (is_err(r) and is_err(m)):
-                ctx.disagree(c, r if is_err(r) else "value", m, "leapfrog: error behaviour differs")
-            continue
-        mz = [fr(x) for x in m["q"]] + [fr(x) for x in m["p"]]
-        sc = max(1.0, max(abs(float(x)) for x in mz))
-        if not m.get("roundtrip_exact", True):
-            ctx.broke("correspondence", "model round trip", "the rational model did not return exactly (theorem instance)")
-        if not (allclose(r["z1"], mz, sc, 1e-11) and allclose([r["e0"], r["e1"]], [fr(m["energy0"]), fr(m["energy1"])],
-                                                             max(1.0, abs(r["e0"])), 1e-10)):
-            ctx.disagree(c, dict(z=[repr(float(x)) for x in r["z1"]], e=[r["e0"], r["e1"]]),
-                         dict(z=[repr(float(x)) for x in mz], e=[float(fr(m["energy0"])), float(fr(m["energy1"]))]),
-                         "class T: n leapfrog steps and energies, real stepper vs rational model")
-        for a in r["draws"]:
-            acc_lines.append(dict(op="accept", u=rs(a["u"]), e_init=rs(r["e0"]), e_prop=rs(r["e1"])))
-            acc_cases.append((c, a))
-    # accept/reject decisions replayed by the model from the recorded energies
-    for (c, a), m in zip(acc_cases, ctx.model(DRIVER, acc_lines)):
-        p = float(fr(m["p"]))
-        if abs(a["u"] - p) <= 1e-6 * max(1.0, p):
-            ctx.skipped_near_threshold += 1
-            continue
-        ctx.traces_validated += 1
-        ctx.stat("accept" if a["accepted"] else "reject")
-        if bool(m["accept"]) != a["accepted"]:
-            ctx.disagree(c, dict(accepted=a["accepted"], u=a["u"]), dict(accepted=m["accept"], p=p),
-                         "Metropolis decision replayed from recorded energies")
-    # NUTS integer bookkeeping: model vs real helpers, all leaf indices below 2^depth
+        leap_idx[ci] = ask(dict(op="leapfrog", q=c["q"], p=c["p"], eps=c["eps"], n=c["n"], A=c["A"], b=c["b"], c=c["c"],
+                                minv=c["minv"]))
+        if not is_err(r):
+            for a in r["draws"]:
+                acc_idx.append((c, a, ask(dict(op="accept", u=rs(a["u"]), e_init=rs(r["e0"]), e_prop=rs(r["e1"])))))
     depth = ctx.n(6, 10)
     ns = list(range(1, 2 ** depth))
-    mo = ctx.model(DRIVER, [dict(op="slots", n=n) for n in ns])
-    for n, m in zip(ns, mo):
-        c = dict(sub="slots", n=n)
-        ctx.case(c, nontrivial=n % 2 == 1)
-        if m["checked"] != m["expected"]:
-            ctx.broke("correspondence", "model slot invariant", f"n={n}: {m}")
-        if n < ctx.n(64, 256):
-            rb = safe(_real_bits, n)
-            if is_err(rb) or [rb[0], rb[1]] != [m["cto"], m["pop"]]:
-                ctx.disagree(c, rb, dict(cto=m["cto"], pop=m["pop"]), "count_trailing_ones / population_count")
-    for n in ([7, 11, 23, 31, 47, 63] if ctx.quick else list(range(1, 256, 2))):
-        res = _oracle_slots(dict(sub="slots", n=n))
-        if res is not None:
-            ctx.counterexample(dict(sub="slots", n=n), *res)
-    ctx.extra["slots_exhaustive_below"] = 2 ** depth
-    # NUTS: trace validation of the eagerly executed real tree builder + decisions replayed by the model
+    slot_idx = [ask(dict(op="slots", n=n)) for n in ns]
     nuts = [gen_nuts(rng, ctx.quick) for _ in range(ctx.n(2, 40))]
-    nlines, nmeta = [], []
+    nmeta = []
     for c in nuts:
         ctx.case(c, True)
         ctx.stat(f"nuts:depth<={c['depth']},bias={c['bias']}")
@@ -595,12 +567,62 @@ def run(ctx):
         ctx.stat("nuts:merges", len(r["merges"]))
         ctx.stat("nuts:adds", len(r["adds"]))
         for a in r["adds"]:
-            nlines.append(dict(op="keep", u=rs(a["u"]), w_old=rs(a["w_old"]), neg_energy=rs(-r["energy"][a["leaf"]])))
-            nmeta.append((c, "remain", a["cand"] == a["old"], a["old"] == a["leaf"], a["u"]))
+            i = ask(dict(op="keep", u=rs(a["u"]), w_old=rs(a["w_old"]), neg_energy=rs(-r["energy"][a["leaf"]])))
+            nmeta.append((c, "remain", a["cand"] == a["old"], a["old"] == a["leaf"], a["u"], i))
         for m in r["merges"]:
-            nlines.append(dict(op="merge", u=rs(m["u"]), w_new=rs(m["w_new"]), w_cur=rs(m["w_cur"]), bias=m["bias"]))
-            nmeta.append((c, "take_new", m["cand"] == m["c_new"], m["c_cur"] == m["c_new"], m["u"]))
-    for (c, fld, impl, ambiguous, u), m in zip(nmeta, ctx.model(DRIVER, nlines)):
+            i = ask(dict(op="merge", u=rs(m["u"]), w_new=rs(m["w_new"]), w_cur=rs(m["w_cur"]), bias=m["bias"]))
+            nmeta.append((c, "take_new", m["cand"] == m["c_new"], m["c_cur"] == m["c_new"], m["u"], i))
+    outs = ctx.model(DRIVER, batch)
+    # ---- leapfrog correspondence -------------------------------------------------------------------------------------
+    for ci, c in enumerate(cases):
+        if ci not in leap_idx:
+            continue
+        r, _ = _leap(c)
+        m = outs[leap_idx[ci]]
+        if is_err(r) or is_err(m):
+            if not (is_err(r) and is_err(m)):
+                ctx.disagree(c, r if is_err(r) else "value", m, "leapfrog: error behaviour differs")
+            continue
+        mz = [fr(x) for x in m["q"]] + [fr(x) for x in m["p"]]
+        sc = max(1.0, max(abs(float(x)) for x in mz))
+        if not m.get("roundtrip_exact", True):
+            ctx.broke("correspondence", "model round trip", "the rational model did not return exactly (theorem instance)")
+        if not (allclose(r["z1"], mz, sc, 1e-11) and allclose([r["e0"], r["e1"]], [fr(m["energy0"]), fr(m["energy1"])],
+                                                             max(1.0, abs(r["e0"])), 1e-10)):
+            ctx.disagree(c, dict(z=[repr(float(x)) for x in r["z1"]], e=[r["e0"], r["e1"]]),
+                         dict(z=[repr(float(x)) for x in mz], e=[float(fr(m["energy0"])), float(fr(m["energy1"]))]),
+                         "class T: n leapfrog steps and energies, real stepper vs rational model")
+    # accept/reject decisions replayed by the model from the recorded energies
+    for c, a, i in acc_idx:
+        m = outs[i]
+        p = float(fr(m["p"]))
+        if abs(a["u"] - p) <= 1e-6 * max(1.0, p):
+            ctx.skipped_near_threshold += 1
+            continue
+        ctx.traces_validated += 1
+        ctx.stat("accept" if a["accepted"] else "reject")
+        if bool(m["accept"]) != a["accepted"]:
+            ctx.disagree(c, dict(accepted=a["accepted"], u=a["u"]), dict(accepted=m["accept"], p=p),
+                         "Metropolis decision replayed from recorded energies")
+    # NUTS integer bookkeeping: model vs real helpers, all leaf indices below 2^depth
+    for n, i in zip(ns, slot_idx):
+        m = outs[i]
+        c = dict(sub="slots", n=n)
+        ctx.case(c, nontrivial=n % 2 == 1)
+        if m["checked"] != m["expected"]:
+            ctx.broke("correspondence", "model slot invariant", f"n={n}: {m}")
+        if n < ctx.n(64, 256):
+            rb = safe(_real_bits, n)
+            if is_err(rb) or [rb[0], rb[1]] != [m["cto"], m["pop"]]:
+                ctx.disagree(c, rb, dict(cto=m["cto"], pop=m["pop"]), "count_trailing_ones / population_count")
+    for n in ([7, 11, 23, 31, 47, 63] if ctx.quick else list(range(1, 256, 2))):
+        res = _oracle_slots(dict(sub="slots", n=n))
+        if res is not None:
+            ctx.counterexample(dict(sub="slots", n=n), *res)
+    ctx.extra["slots_exhaustive_below"] = 2 ** depth
+    # NUTS decisions replayed by the model from the recorded weights
+    for c, fld, impl, ambiguous, u, i in nmeta:
+        m = outs[i]
         p = float(fr(m["p"]))
         if ambiguous:
             continue
